@@ -10,11 +10,15 @@
 #include "chan.h"
 #include "harness/c05_chanlog.h"   /* cr_chan_set, ghost log, chan_set call sites -> logged_chan_set */
 #include "cpu.c"                    /* the real /repo/src/emu/cpu.c */
+#include "harness/c05_cpu.h"        /* shared frames, cr_cpu_update, cr_cpu_migrate_thread */
 
 #ifndef C05_MAXN
 #define C05_MAXN 3
 #endif
-_Static_assert(C05_MAXN >= 1 && C05_MAXN <= 4, "spec macros are written for at most 4 threads");
+#ifndef C05_MAXM
+#define C05_MAXM C05_MAXN          /* bound of the target CPU's list in the migrate groups */
+#endif
+_Static_assert(C05_MAXN >= 1 && C05_MAXN <= 4 && C05_MAXM >= 1 && C05_MAXM <= 4, "spec macros are written for at most 4 threads");
 
 /* ---- harness-built heap, named by ghosts ---- */
 struct cpu *g_cpu;            /* the CPU under test */
@@ -27,7 +31,6 @@ struct thread *g_th;          /* thread argument of add/remove/migrate/find */
 int g_sel;                    /* its position in g_t, or g_n if it is not in the list */
 
 int w_n, w_m, w_sel, w_virtual, w_virtual2;
-int w_st0, w_st1, w_st2, w_st3;
 
 /* harness allocation: input objects exist (CBMC 6 lets malloc return NULL) */
 static void *xalloc(size_t size)
@@ -37,9 +40,12 @@ static void *xalloc(size_t size)
 	return p;
 }
 
+int g_with_proc;               /* harness switch: cpu_update reads th->proc->pid */
 static struct thread *mk_thread(struct thread *share)
 {
 	struct thread *t = xalloc(sizeof(struct thread));   /* arbitrary contents */
+	if (!g_with_proc)
+		return t;                                    /* proc pointer arbitrary: never read */
 	if (share != NULL && nondet_bool())
 		t->proc = share->proc;                       /* threads of one process */
 	else
@@ -47,12 +53,12 @@ static struct thread *mk_thread(struct thread *share)
 	return t;
 }
 
-/* a CPU with arbitrary fields whose list holds n <= C05_MAXN threads */
-static struct cpu *mk_cpu(struct thread **t, int *pn)
+/* a CPU with arbitrary fields whose list holds n <= max threads */
+static struct cpu *mk_cpu(struct thread **t, int *pn, int max)
 {
 	struct cpu *cpu = xalloc(sizeof(struct cpu));
 	int n = nondet_int();
-	__CPROVER_assume(0 <= n && n <= C05_MAXN);
+	__CPROVER_assume(0 <= n && n <= max);
 	cpu->threads = NULL;
 	t[0] = t[1] = t[2] = t[3] = t[4] = NULL;
 	if (n > 0) { t[0] = mk_thread(NULL); DL_APPEND2(cpu->threads, t[0], cpu_prev, cpu_next); }
@@ -64,31 +70,40 @@ static struct cpu *mk_cpu(struct thread **t, int *pn)
 	return cpu;
 }
 
-/* ---- counting spec over the harness-built list (threads are outside every
- * frame below, so their post-state fields are their pre-state fields) ---- */
-#define T_RUN(t, n, i) ((i) < (n) && (t)[i]->state == TH_ST_RUNNING)
-#define T_ACT(t, n, i) ((i) < (n) && ((t)[i]->state == TH_ST_RUNNING || \
-		(t)[i]->state == TH_ST_COOLING || (t)[i]->state == TH_ST_WARMING))
-#define NRUN(t, n) (T_RUN(t, n, 0) + T_RUN(t, n, 1) + T_RUN(t, n, 2) + T_RUN(t, n, 3))
-#define NACT(t, n) (T_ACT(t, n, 0) + T_ACT(t, n, 1) + T_ACT(t, n, 2) + T_ACT(t, n, 3))
-#define URUN(t, n) (T_RUN(t, n, 0) ? (t)[0] : T_RUN(t, n, 1) ? (t)[1] : T_RUN(t, n, 2) ? (t)[2] : T_RUN(t, n, 3) ? (t)[3] : (struct thread *) NULL)
-#define UACT(t, n) (T_ACT(t, n, 0) ? (t)[0] : T_ACT(t, n, 1) ? (t)[1] : T_ACT(t, n, 2) ? (t)[2] : T_ACT(t, n, 3) ? (t)[3] : (struct thread *) NULL)
+/* ---- counting spec over the harness-built list.  The enforce-only contracts
+ * bind the relevant thread fields once, in witness ghosts (threads are outside
+ * every frame below, so these are also their post-state values) ---- */
+int w_st[4];                   /* state of thread i, -1 beyond the list */
+long w_tid[4], w_pid[4], w_gid[4];
+#define BIND_THREAD(t, n, i) ( \
+	w_st[i]  == ((i) < (n) ? (int) (t)[i]->state : -1) && \
+	w_tid[i] == ((i) < (n) ? (long) (t)[i]->tid : 0L) && \
+	w_pid[i] == ((i) < (n) ? (long) (t)[i]->proc->pid : 0L) && \
+	w_gid[i] == ((i) < (n) ? (long) (t)[i]->gindex : 0L))
+#define S_RUN(i) (w_st[i] == TH_ST_RUNNING)
+#define S_ACT(i) (w_st[i] == TH_ST_RUNNING || w_st[i] == TH_ST_COOLING || w_st[i] == TH_ST_WARMING)
+#define SEL4(a, i) ((i) == 0 ? a[0] : (i) == 1 ? a[1] : (i) == 2 ? a[2] : a[3])
 
-/* pre-state facts of the list, bound in ghosts by the enforce-only contracts
- * (keeps the clauses small: the counting terms are evaluated once) */
+/* pre-state facts of the list, bound in ghosts */
 int g_nrun, g_nact, g_oversub;
-struct thread *g_urun, *g_uact;
+int g_irun, g_iact;            /* index of the first running / active thread, -1 if none */
+struct thread *g_urun, *g_uact;/* the unique running / active thread, or NULL */
 long g_x1type, g_xtid, g_xpid, g_xgid, g_xatype, g_xagid;
 #define BIND_COUNTS(cpu, t, n) ( \
-	g_nrun == NRUN(t, n) && g_nact == NACT(t, n) && g_oversub == (g_nrun > 1 && !(cpu)->is_virtual) && \
-	g_urun == (g_nrun == 1 ? URUN(t, n) : (struct thread *) NULL) && \
-	g_uact == (g_nact == 1 ? UACT(t, n) : (struct thread *) NULL) && \
+	BIND_THREAD(t, n, 0) && BIND_THREAD(t, n, 1) && BIND_THREAD(t, n, 2) && BIND_THREAD(t, n, 3) && \
+	g_nrun == S_RUN(0) + S_RUN(1) + S_RUN(2) + S_RUN(3) && \
+	g_nact == S_ACT(0) + S_ACT(1) + S_ACT(2) + S_ACT(3) && \
+	g_irun == (S_RUN(0) ? 0 : S_RUN(1) ? 1 : S_RUN(2) ? 2 : S_RUN(3) ? 3 : -1) && \
+	g_iact == (S_ACT(0) ? 0 : S_ACT(1) ? 1 : S_ACT(2) ? 2 : S_ACT(3) ? 3 : -1) && \
+	g_oversub == (g_nrun > 1 && !(cpu)->is_virtual) && \
+	g_urun == (g_nrun == 1 ? SEL4((t), g_irun) : (struct thread *) NULL) && \
+	g_uact == (g_nact == 1 ? SEL4((t), g_iact) : (struct thread *) NULL) && \
 	g_x1type == (g_nrun == 1 ? VALUE_INT64 : VALUE_NULL) && \
-	g_xtid == (g_nrun == 1 ? (long) URUN(t, n)->tid : 0L) && \
-	g_xpid == (g_nrun == 1 ? (long) URUN(t, n)->proc->pid : 0L) && \
-	g_xgid == (g_nrun == 1 ? (long) URUN(t, n)->gindex : 0L) && \
+	g_xtid == (g_nrun == 1 ? SEL4(w_tid, g_irun) : 0L) && \
+	g_xpid == (g_nrun == 1 ? SEL4(w_pid, g_irun) : 0L) && \
+	g_xgid == (g_nrun == 1 ? SEL4(w_gid, g_irun) : 0L) && \
 	g_xatype == (g_nact == 1 ? VALUE_INT64 : VALUE_NULL) && \
-	g_xagid == (g_nact == 1 ? (long) UACT(t, n)->gindex : 0L))
+	g_xagid == (g_nact == 1 ? SEL4(w_gid, g_iact) : 0L))
 
 /* log entry k (if any) is a write of the value the spec demands to one of the
  * five channels of this CPU */
@@ -103,21 +118,11 @@ long g_x1type, g_xtid, g_xpid, g_xgid, g_xatype, g_xagid;
 /* only the last write may have failed */
 #define LOG_PREFIX_OK(b, k) ((b) + (k) + 1 >= g_cs_n || g_cs_ret[(b) + (k)] == 0)
 
-#define CPU_CHANS_CB_OK(cpu) (CB_OK(&(cpu)->chan[0]) && CB_OK(&(cpu)->chan[1]) && CB_OK(&(cpu)->chan[2]) && \
-		CB_OK(&(cpu)->chan[3]) && CB_OK(&(cpu)->chan[4]))
-#define LOG5(a, n) a[n], a[n + 1], a[n + 2], a[n + 3], a[n + 4]
-#define UPD_LOG_FRAME g_cs_n, LOG5(g_cs_chan, g_cs_n), LOG5(g_cs_type, g_cs_n), LOG5(g_cs_i, g_cs_n), LOG5(g_cs_ret, g_cs_n)
-#define CHAN_W(cpu, k) (cpu)->chan[k].data.value, (cpu)->chan[k].is_dirty
-#define UPD_FRAME(cpu) (cpu)->nth_running, (cpu)->nth_active, (cpu)->th_running, (cpu)->th_active, \
-		CHAN_W(cpu, 0), CHAN_W(cpu, 1), CHAN_W(cpu, 2), CHAN_W(cpu, 3), CHAN_W(cpu, 4)
-
 /* ================= cpu_update: the strong, enforce-only contract ============ */
 int c_cpu_update(struct cpu *cpu)
 __CPROVER_requires(cpu == g_cpu && CPU_CHANS_CB_OK(cpu) && g_cs_n == 0 && g_cb_calls < 1000u && DIAG_PRE)
 __CPROVER_requires(BIND_COUNTS(cpu, g_t, g_n))
-__CPROVER_requires(w_n == g_n && w_virtual == cpu->is_virtual &&
-	w_st0 == (g_n > 0 ? (int) g_t[0]->state : -1) && w_st1 == (g_n > 1 ? (int) g_t[1]->state : -1) &&
-	w_st2 == (g_n > 2 ? (int) g_t[2]->state : -1) && w_st3 == (g_n > 3 ? (int) g_t[3]->state : -1))
+__CPROVER_requires(w_n == g_n && w_virtual == cpu->is_virtual)
 __CPROVER_assigns(UPD_FRAME(cpu), UPD_LOG_FRAME, CS_FRAME)
 __CPROVER_ensures(__CPROVER_return_value == 0 || __CPROVER_return_value == -1)
 /* the counters are the number of running / active threads bound to the CPU */
@@ -145,15 +150,210 @@ __CPROVER_ensures(__CPROVER_return_value == 0 || g_oversub ||
 
 void h_cpu_update(void)
 {
-	g_cpu = mk_cpu(g_t, &g_n);
+	g_with_proc = 1;
+	g_cpu = mk_cpu(g_t, &g_n, C05_MAXN);
 	chan_cb_t keep = stub_dirty_cb; (void) keep;
 	WITNESS_OFF(chan_set);
 	int r = cpu_update(g_cpu);
-	int nrun = (w_st0 == TH_ST_RUNNING) + (w_st1 == TH_ST_RUNNING) + (w_st2 == TH_ST_RUNNING) + (w_st3 == TH_ST_RUNNING);
+	int nrun = g_nrun;
 	if (r == 0 && nrun == 0) REACH("update accepted, no running thread");
 	if (r == 0 && nrun == 1 && w_n == C05_MAXN) REACH("update accepted, unique running thread, full list");
 	if (r == 0 && nrun == C05_MAXN && C05_MAXN > 1) REACH("virtual cpu oversubscribed, accepted");
 	if (r != 0 && nrun == 2 && !w_virtual) REACH("physical cpu with two running threads refused");
 	if (r != 0 && nrun <= 1) REACH("refused because a channel write failed");
 	if (r == 0 && w_n == 0) REACH("update of an empty cpu");
+}
+
+void h_cpu_update_r(void)
+{
+	g_with_proc = 1;
+	g_cpu = mk_cpu(g_t, &g_n, C05_MAXN);
+	chan_cb_t keep = stub_dirty_cb; (void) keep;
+	WITNESS_OFF(chan_set);
+	int r = cpu_update(g_cpu);
+	if (r == 0) REACH("update accepted");
+	if (r != 0) REACH("update refused");
+}
+
+/* ================= membership: find / add / remove / migrate ================
+ * e[0..len) is the thread list of cpu (utlist DL: head->prev is the tail,
+ * tail->next is NULL).  The expected lists are computed by the harness. */
+#define LINKED(e, j, len) ((j) + 1 >= (len) || ((e)[j]->cpu_next == (e)[(j) + 1] && (e)[(j) + 1]->cpu_prev == (e)[j]))
+#define LIST_IS(cpu, e, len) ((len) == 0 ? (cpu)->threads == NULL : \
+	((cpu)->threads == (e)[0] && (e)[0]->cpu_prev == (e)[(len) - 1] && (e)[(len) - 1]->cpu_next == NULL && \
+	 LINKED(e, 0, len) && LINKED(e, 1, len) && LINKED(e, 2, len) && LINKED(e, 3, len)))
+
+struct thread *g_e[5]; int g_elen;    /* expected list of g_cpu after the call */
+struct thread *g_f[5]; int g_flen;    /* expected list of g_cpu2 after the call */
+
+/* a thread that is in no list of the harness: its links are NULL (never bound)
+ * or stale (utlist does not clear them on delete) */
+static struct thread *mk_stale_thread(void)
+{
+	struct thread *t = mk_thread(NULL);
+	struct thread *other = mk_thread(NULL);
+	other->cpu_prev = other->cpu_next = NULL;
+	switch (nondet_int()) {
+	case 0: t->cpu_prev = NULL; break;
+	case 1: t->cpu_prev = t; break;
+	default: t->cpu_prev = other; break;
+	}
+	t->cpu_next = nondet_bool() ? NULL : other;
+	return t;
+}
+
+/* g_cpu with its list, and the thread argument: g_t[g_sel] or a thread that
+ * is not in the list (g_sel == g_n) */
+static void mk_cpu_and_thread(void)
+{
+	g_with_proc = 0;
+	g_cpu = mk_cpu(g_t, &g_n, C05_MAXN);
+	g_sel = nondet_int();
+	__CPROVER_assume(0 <= g_sel && g_sel <= g_n);
+	g_th = (g_sel < g_n) ? g_t[g_sel] : mk_stale_thread();
+}
+
+/* ---------------- find_thread ---------------- */
+struct thread *c_find_thread(struct cpu *cpu, struct thread *thread)
+__CPROVER_requires(cpu == g_cpu && thread == g_th && w_n == g_n && w_sel == g_sel)
+__CPROVER_assigns()
+__CPROVER_ensures(__CPROVER_return_value == (g_sel < g_n ? thread : (struct thread *) NULL))
+;
+
+void h_find_thread(void)
+{
+	mk_cpu_and_thread();
+	struct thread *r = find_thread(g_cpu, g_th);
+	if (r != NULL && w_sel == C05_MAXN - 1) REACH("thread found at the tail of a full list");
+	if (r == NULL && w_n == C05_MAXN) REACH("thread not in a full list");
+	if (r == NULL && w_n == 0) REACH("empty list");
+}
+
+/* ---------------- cpu_add_thread ---------------- */
+int c_cpu_add_thread(struct cpu *cpu, struct thread *thread)
+__CPROVER_requires(cpu == g_cpu && thread == g_th && UPD_PRE(cpu, 5, 1000u) && g_cs_n == 0)
+__CPROVER_requires(w_n == g_n && w_sel == g_sel && w_virtual == cpu->is_virtual)
+__CPROVER_assigns(DIAG_FRAME)
+__CPROVER_assigns(g_sel == g_n: APPEND_FRAME(cpu, thread), UPD_FRAME(cpu), UPD_LOG_FRAME, g_cb_calls, g_cb_ret)
+__CPROVER_assigns(g_sel == g_n && cpu->threads != NULL: cpu->threads->cpu_prev, cpu->threads->cpu_prev->cpu_next)
+__CPROVER_ensures(__CPROVER_return_value == 0 || __CPROVER_return_value == -1)
+/* already bound to this CPU: refused, nothing touched (frame), no update */
+__CPROVER_ensures(g_sel == g_n || (__CPROVER_return_value == -1 && g_err > __CPROVER_old(g_err)))
+/* otherwise the thread becomes the tail of the list ... */
+__CPROVER_ensures(g_sel != g_n || (LIST_IS(cpu, g_e, g_elen) && cpu->nthreads == (size_t) g_n + 1))
+/* ... and the call succeeds exactly when the CPU update does */
+__CPROVER_ensures(g_sel != g_n || ((__CPROVER_return_value == 0) == UPD_OK(cpu, 0)))
+__CPROVER_ensures(__CPROVER_return_value == 0 || g_err > __CPROVER_old(g_err))
+;
+
+void h_cpu_add_thread(void)
+{
+	mk_cpu_and_thread();
+	for (int i = 0; i < 5; i++) g_e[i] = g_t[i];
+	g_e[g_n] = g_th; g_elen = g_n + 1;
+	chan_cb_t keep = stub_dirty_cb; (void) keep;
+	int r = cpu_add_thread(g_cpu, g_th);
+	if (r == 0 && w_n == C05_MAXN) REACH("thread added to a full list");
+	if (r == 0 && w_n == 0) REACH("thread added to an empty list");
+	if (r != 0 && w_sel < w_n) REACH("thread already in the list refused");
+	if (r != 0 && w_sel == w_n) REACH("added but the cpu update failed");
+}
+
+/* ---------------- cpu_remove_thread ---------------- */
+int c_cpu_remove_thread(struct cpu *cpu, struct thread *thread)
+__CPROVER_requires(cpu == g_cpu && thread == g_th && UPD_PRE(cpu, 5, 1000u) && g_cs_n == 0)
+__CPROVER_requires(w_n == g_n && w_sel == g_sel && w_virtual == cpu->is_virtual)
+__CPROVER_assigns(DIAG_FRAME)
+__CPROVER_assigns(g_sel < g_n: DELETE_FRAME(cpu), UPD_FRAME(cpu), UPD_LOG_FRAME, g_cb_calls, g_cb_ret)
+__CPROVER_assigns(g_sel < g_n && thread->cpu_next != NULL: thread->cpu_next->cpu_prev)
+__CPROVER_assigns(g_sel < g_n && thread->cpu_prev != NULL: thread->cpu_prev->cpu_next)
+__CPROVER_assigns(g_sel < g_n && cpu->threads != NULL: cpu->threads->cpu_prev)
+__CPROVER_ensures(__CPROVER_return_value == 0 || __CPROVER_return_value == -1)
+/* not bound to this CPU: refused, nothing touched (frame), no update */
+__CPROVER_ensures(g_sel < g_n || (__CPROVER_return_value == -1 && g_err > __CPROVER_old(g_err)))
+/* otherwise exactly that thread leaves the list, order of the others kept ... */
+__CPROVER_ensures(g_sel >= g_n || (LIST_IS(cpu, g_e, g_elen) && cpu->nthreads == (size_t) g_n - 1))
+/* ... and the call succeeds exactly when the CPU update does */
+__CPROVER_ensures(g_sel >= g_n || ((__CPROVER_return_value == 0) == UPD_OK(cpu, 0)))
+__CPROVER_ensures(__CPROVER_return_value == 0 || g_err > __CPROVER_old(g_err))
+;
+
+static void expect_removed(void)
+{
+	for (int j = 0; j < 5; j++)
+		g_e[j] = (j < g_sel) ? g_t[j] : (j + 1 < 5 ? g_t[j + 1] : NULL);
+	g_elen = g_n - 1;
+}
+
+void h_cpu_remove_thread(void)
+{
+	mk_cpu_and_thread();
+	expect_removed();
+	chan_cb_t keep = stub_dirty_cb; (void) keep;
+	int r = cpu_remove_thread(g_cpu, g_th);
+	if (r == 0 && w_n == C05_MAXN && w_sel == 0) REACH("head of a full list removed");
+	if (r == 0 && w_n == C05_MAXN && w_sel == C05_MAXN - 1) REACH("tail of a full list removed");
+	if (r == 0 && w_n == 1) REACH("only thread removed");
+	if (r == 0 && w_n == 3 && w_sel == 1) REACH("middle thread removed");
+	if (r != 0 && w_sel == w_n) REACH("thread not in the list refused");
+	if (r != 0 && w_sel < w_n) REACH("removed but the cpu update failed");
+}
+
+/* ---------------- cpu_migrate_thread ---------------- */
+/* strong, enforce-only: exact membership effect on both CPUs */
+int c_cpu_migrate_thread(struct cpu *cpu, struct thread *thread, struct cpu *newcpu)
+__CPROVER_requires(cpu == g_cpu && thread == g_th && newcpu == g_cpu2 && UPD_PRE(cpu, 10, 1000u) && CPU_CHANS_CB_OK(newcpu) && g_cs_n == 0)
+__CPROVER_requires(w_n == g_n && w_m == g_m && w_sel == g_sel && w_virtual == cpu->is_virtual && w_virtual2 == newcpu->is_virtual)
+__CPROVER_assigns(DIAG_FRAME)
+__CPROVER_assigns(g_sel < g_n: CPU_BLOCK(cpu), CPU_CHANS_W(cpu), CPU_BLOCK(newcpu), CPU_CHANS_W(newcpu),
+	thread->cpu_prev, thread->cpu_next, MIG_LOG_FRAME, g_cb_calls, g_cb_ret)
+__CPROVER_assigns(g_sel < g_n && thread->cpu_next != NULL: thread->cpu_next->cpu_prev)
+__CPROVER_assigns(g_sel < g_n && thread->cpu_prev != NULL: thread->cpu_prev->cpu_next)
+__CPROVER_assigns(g_sel < g_n && cpu->threads != NULL: cpu->threads->cpu_prev)
+__CPROVER_assigns(g_sel < g_n && newcpu->threads != NULL: newcpu->threads->cpu_prev, newcpu->threads->cpu_prev->cpu_next)
+__CPROVER_ensures(__CPROVER_return_value == 0 || __CPROVER_return_value == -1)
+/* not bound to the source CPU: refused, nothing touched (frame) */
+__CPROVER_ensures(g_sel < g_n || (__CPROVER_return_value == -1 && g_err > __CPROVER_old(g_err)))
+/* otherwise it leaves the source CPU, which is updated first ... */
+__CPROVER_ensures(g_sel >= g_n || (LIST_IS(cpu, g_e, g_elen) && cpu->nthreads == (size_t) g_n - 1))
+/* ... if that update fails the target CPU keeps its list and is not updated ... */
+__CPROVER_ensures(g_sel >= g_n || (g_cs_n == 5 && g_cs_ret[0] == 0 && g_cs_ret[1] == 0 && g_cs_ret[2] == 0 && g_cs_ret[3] == 0 && g_cs_ret[4] == 0 && !(cpu->nth_running > 1 && !cpu->is_virtual)) || g_cs_n > 5 ||
+	(__CPROVER_return_value == -1 && LIST_IS(newcpu, g_u, g_m) && newcpu->nthreads == (size_t) g_m &&
+	 newcpu->nth_running == __CPROVER_old(newcpu->nth_running)))
+/* ... else it becomes the tail of the target CPU's list, and the call
+ * succeeds exactly when the update of the target CPU does */
+__CPROVER_ensures(g_sel >= g_n || !(g_cs_n >= 5 && g_cs_ret[0] == 0 && g_cs_ret[1] == 0 && g_cs_ret[2] == 0 && g_cs_ret[3] == 0 && g_cs_ret[4] == 0 && !(cpu->nth_running > 1 && !cpu->is_virtual)) ||
+	(LIST_IS(newcpu, g_f, g_flen) && newcpu->nthreads == (size_t) g_m + 1 &&
+	 (__CPROVER_return_value == 0) == UPD_OK(newcpu, 5)))
+__CPROVER_ensures(__CPROVER_return_value == 0 || g_err > __CPROVER_old(g_err))
+;
+
+void h_cpu_migrate_thread(void)
+{
+	mk_cpu_and_thread();
+	expect_removed();
+	g_cpu2 = mk_cpu(g_u, &g_m, C05_MAXM);
+	for (int i = 0; i < 5; i++) g_f[i] = g_u[i];
+	g_f[g_m] = g_th; g_flen = g_m + 1;
+	g_cs_n = 0;
+	chan_cb_t keep = stub_dirty_cb; (void) keep;
+	int r = cpu_migrate_thread(g_cpu, g_th, g_cpu2);
+	if (r == 0) REACH("thread migrated");
+	if (r != 0) REACH("migration refused");
+}
+
+void h_cpu_migrate_thread_c(void)
+{
+	mk_cpu_and_thread();
+	expect_removed();
+	g_cpu2 = mk_cpu(g_u, &g_m, C05_MAXM);
+	for (int i = 0; i < 5; i++) g_f[i] = g_u[i];
+	g_f[g_m] = g_th; g_flen = g_m + 1;
+	chan_cb_t keep = stub_dirty_cb; (void) keep;
+	int r = cpu_migrate_thread(g_cpu, g_th, g_cpu2);
+	if (r == 0 && w_n == C05_MAXN && w_m == C05_MAXM) REACH("thread migrated between full lists");
+	if (r == 0 && w_n == 1 && w_m == 0) REACH("only thread migrated to an empty cpu");
+	if (r != 0 && w_sel == w_n) REACH("thread not on the source cpu refused");
+	if (r != 0 && w_sel < w_n && g_cs_n <= 5) REACH("update of the source cpu failed");
+	if (r != 0 && w_sel < w_n && g_cs_n > 5) REACH("update of the target cpu failed");
 }
